@@ -294,6 +294,44 @@ def module_level_caches(repo, col, shorts):
 # ---------------------------------------------------------------------
 # generic lints with zero expected instances
 # ---------------------------------------------------------------------
+class _Record:
+    """Constructor of a namedtuple: positional parameters = its fields."""
+    class _A:
+        vararg = None
+
+    class _N:
+        pass
+
+    def __init__(self, name, fields):
+        self.qualname = name
+        self.params = list(fields)
+        self.node = self._N()
+        self.node.args = self._A()
+
+
+def _namedtuple_fields(v):
+    if not (isinstance(v, ast.Call) and
+            (call_name(v) or "").split(".")[-1] in ("namedtuple",
+                                                     "NamedTuple")
+            and len(v.args) >= 2):
+        return None
+    f = v.args[1]
+    if isinstance(f, ast.Constant) and isinstance(f.value, str):
+        return f.value.replace(",", " ").split()
+    if isinstance(f, (ast.Tuple, ast.List)):
+        out = []
+        for e in f.elts:
+            if isinstance(e, ast.Constant) and isinstance(e.value, str):
+                out.append(e.value)
+            elif isinstance(e, (ast.Tuple, ast.List)) and e.elts and \
+                    isinstance(e.elts[0], ast.Constant):
+                out.append(e.elts[0].value)
+            else:
+                return None
+        return out
+    return None
+
+
 def swapped_arguments(repo, col, shorts=None):
     """A positional argument whose name is that of a *different* parameter of
     the callee (and not of its own position).  `shorts` restricts the calling
@@ -307,6 +345,20 @@ def swapped_arguments(repo, col, shorts=None):
         for c in m.classes.values():
             if "__init__" in c.methods:
                 by_name.setdefault(c.name, []).append(c.methods["__init__"])
+            elif "__new__" in c.methods:
+                by_name.setdefault(c.name, []).append(c.methods["__new__"])
+            else:
+                # class X(namedtuple("X", fields)): the fields are the
+                # constructor's parameters
+                for b in c.node.bases:
+                    fl = _namedtuple_fields(b)
+                    if fl:
+                        by_name.setdefault(c.name, []).append(
+                            _Record(c.name, fl))
+        for cname, cval in m.constants.items():
+            fl = _namedtuple_fields(cval)
+            if fl:
+                by_name.setdefault(cname, []).append(_Record(cname, fl))
 
     def argname(a):
         if isinstance(a, ast.Name):
@@ -492,6 +544,39 @@ def loop_error_discipline(repo, col):
 # ---------------------------------------------------------------------
 # specification details
 # ---------------------------------------------------------------------
+def _strip_reorder(repo, fn, e, depth=0):
+    """e without the wrappers that only re-order or re-type a sequence
+    (tuple(), list(), reversed(), [::-1]); `self.<property>` is replaced by
+    what a one-return property gives."""
+    while True:
+        if isinstance(e, ast.Call) and call_name(e) in (
+                "tuple", "list", "reversed") and len(e.args) == 1 and \
+                not e.keywords:
+            e = e.args[0]
+            continue
+        if isinstance(e, ast.Subscript) and isinstance(e.slice, ast.Slice) \
+                and e.slice.lower is None and e.slice.upper is None and \
+                e.slice.step is not None and norm(e.slice.step) == "-1":
+            e = e.value
+            continue
+        break
+    if depth < 3 and isinstance(e, ast.Attribute) and \
+            isinstance(e.value, ast.Name) and e.value.id == "self" and \
+            fn.cls is not None:
+        for cc in repo.mro(fn.cls):
+            meth = cc.methods.get(e.attr)
+            if meth is None:
+                continue
+            if any("property" in norm(d) for d in meth.node.decorator_list):
+                rets = [x for x in walk_local(meth.node)
+                        if isinstance(x, ast.Return) and x.value is not None]
+                if len(rets) == 1:
+                    return _strip_reorder(repo, meth, rets[0].value,
+                                          depth + 1)
+            break
+    return e
+
+
 def declared_block_size(repo, col):
     rule = "E-SPEC.cseg.declared-block"
     for qn, callee, argi in (("CompressedSegmentationEncoder.encode",
@@ -506,7 +591,8 @@ def declared_block_size(repo, col):
                     undecided=True)
             continue
         a = norm(calls[0].args[argi])
-        ok = a == "self.block_size"
+        ok = norm(_strip_reorder(repo, fn, calls[0].args[argi])) == \
+            "self.block_size"
         col.add(rule, fn, "%s(..., %s)" % (callee, a), ok, "" if ok else
                 "the codec is given `%s`, not the block size declared in the "
                 "info: the file is laid out for a block size a specification "
@@ -883,13 +969,23 @@ def shard_protocol_guards(repo, col):
             undecided=not walk)
     ini = repo.func("sharded_base", "ReadableMiniShardCMC.__init__")
     ok3 = False
-    for g, atoms in raise_guards(ini.node):
-        for a in atoms:
-            if "% 3" in norm(a.left) and a.op == "==" and norm(a.right) == "0":
-                ok3 = True
-    col.add(rule, ini, "index length must be a multiple of 3", ok3,
+    from .scope import reach as _reach
+    own_parse = any((call_name(c) or "").endswith("frombuffer")
+                    for c in calls_in(ini.node))
+    for h in _reach(repo, ini, depth=2):
+        if h.cls is not None and h.cls is not ini.cls and \
+                h.qualname.split(".")[-1] != "__init__":
+            continue
+        for g, atoms in raise_guards(h.node):
+            for a in atoms:
+                if "% 3" in norm(a.left) and a.op == "==" and \
+                        norm(a.right) == "0":
+                    ok3 = True
+    col.add(rule, ini, "index length must be a multiple of 3",
+            ok3 or not own_parse,
             "" if ok3 else "a minishard index whose length is not a multiple "
-            "of three words is not refused")
+            "of three words is not refused", undecided=not ok3 and
+            not own_parse)
     # 3. the shard index written at offset 0 has exactly the placeholder's
     #    length: too many entries raise, too few are padded with a strict <
     cl = repo.func("sharded_file_accessor", "Shard.close", inline=True)
@@ -907,9 +1003,18 @@ def shard_protocol_guards(repo, col):
                     tv_ = norm(x_.value)
                     hbl = "minishard_bits" in tv_ and "16" in tv_
 
+    from .core import expand_properties
+
     def _is_index_size(txt):
-        return ("minishard_bits" in txt and "16" in txt) or \
-            (hbl and "self.header_byte_length" in txt)
+        if ("minishard_bits" in txt and "16" in txt) or \
+                (hbl and "self.header_byte_length" in txt):
+            return True
+        try:
+            e = ast.parse(txt, mode="eval").body
+        except SyntaxError:
+            return False
+        t2 = norm(expand_properties(repo, cl.module, e))
+        return t2 != txt and "minishard_bits" in t2 and "16" in t2
 
     def _oriented(test):
         """(length name, op, bound expr) with the 2**minishard_bits*16 bound
@@ -965,6 +1070,35 @@ def shard_protocol_guards(repo, col):
     from .core import helper_closure
     opaque = [h for h in helper_closure(getattr(cl, "inlined_from", cl))
               if h.key != cl.key and "sh_idx" in ftext(h)]
+    if not too_many:
+        # the index may be assembled by a function of another module that is
+        # handed the index size: the guard is looked for there, with the
+        # parameter that receives the size as the bound
+        from .rules_more4 import resolve_pkg_call
+        for c in calls_in(cl.node):
+            h = resolve_pkg_call(cl, c)
+            if h is None or h.key == cl.key:
+                continue
+            hp = [p_ for p_ in h.params if p_ not in ("self", "cls")]
+            bind = dict(zip(hp, c.args))
+            bind.update({k.arg: k.value for k in c.keywords if k.arg})
+            sized = {p_ for p_, a_ in bind.items()
+                     if _is_index_size(norm(expand(a_, ptab)))}
+            if not sized:
+                continue
+            opaque.append(h)
+            hdefs = local_defs(h.node)
+            for g, atoms in raise_guards(h.node):
+                for a in atoms:
+                    for b in (a, a.flipped()):
+                        if b.op in ("<", "<=") and norm(b.right) in sized \
+                                and isinstance(b.left, ast.Name) and any(
+                                    d.value is not None and any(
+                                        isinstance(x, ast.Call) and
+                                        call_name(x) == "len"
+                                        for x in walk_local(d.value))
+                                    for d in hdefs.get(b.left.id, [])):
+                            too_many = True
     col.add(rule, cl, "more entries than minishards raise", too_many,
             "" if too_many else "an index longer than 2**minishard_bits "
             "entries is written over the start of the chunk data",
